@@ -10,7 +10,7 @@ from ..oracle import ambient_plugins
 from ..oracle import caching_flags_off
 from ..oracle import (ACCEPT, REJECT, EITHER, slack3, slack_tripped_int, validsig,
                       ed_verify, pubkey_of_seed, as_key_arg, PREFIXES, DECORATIONS, SUFFIXES,
-                      LOCK_FORMS, LIMITS, in_form, code_of, WRAPS, wrap_lock,
+                      LOCK_FORMS, LIMITS, in_form, code_of, WRAPS, wrap_lock, malleate,
                       ARG_STYLES, styled_flags, styled_sigfields, maybe_twice)
 
 PID = 'C14'
@@ -55,7 +55,7 @@ REQUIRED_PROBES = ['t==begin', 't==end-1', 't==end'] + \
      'honest_accept_single', 'honest_accept_chain', 'threshold_per_call',
      'second_hierarchy', 'foreign_witness_verified_under_own_root_first',
      'default_timestamp', 'crafted_witness', 'witness_with_code', 'witness_ending_in_return',
-     'crafted_marker', 'chain_len_long', 'clock_read_failed', 'lock_form_bytes', 'lock_form_resrc', 'lock_form_redec', 'explicit_limits'] + \
+     'crafted_marker', 'chain_len_long', 'clock_read_failed', 'malleated_signature', 'lock_form_bytes', 'lock_form_resrc', 'lock_form_redec', 'explicit_limits'] + \
     ['lock_wrapped_' + x for x in sorted(set(WRAPS) - {'none'})]
 NAMES = ['K', 'Kp'] + ['D%d' % i for i in range(1, 7)] + ['F%d' % i for i in range(1, 7)]
 FIELD_RANGE = {'key': (0, 32), 'begin': (32, 36), 'end': (36, 40), 'can': (40, 41),
@@ -162,9 +162,11 @@ def gen_step(rng, cell, clocks, vname, at_us, thr, fault_free):
         field = a[5:]
         lo, hi = FIELD_RANGE[field]
         step['attack'] = {'kind': 'flip', 'cert': rng.below(ln), 'field': field,
-                          'bit': rng.below((hi - lo) * 8)}
+                          'bit': rng.below((hi - lo) * 8),
+                          'malleate': field == 'sig' and rng.chance(1, 4)}
     elif a == 'flip_final_sig':
-        step['attack'] = {'kind': 'flip_final_sig', 'bit': rng.below(512)}
+        step['attack'] = {'kind': 'flip_final_sig', 'bit': rng.below(512),
+                          'malleate': rng.chance(1, 4)}
     elif a == 'flip_marker' and lock == 'chain':
         step['attack'] = {'kind': 'flip_marker', 'link': rng.below(ln), 'bit': rng.below(8)}
         if rng.chance(1, 3):
@@ -604,12 +606,22 @@ def attack(items, atk, step, keys, run):
         bit = lo * 8 + atk['bit']
         b[bit // 8] ^= 1 << (bit % 8)
         items[pos] = bytes(b)
+        if atk.get('malleate') and len(items[pos]) == 105:
+            # not a flipped bit but the issuer's signature with S + L for S
+            c0 = items[pos]
+            b[bit // 8] ^= 1 << (bit % 8)
+            items[pos] = c0[:41] + malleate(bytes(b)[41:])
+            run.probe('malleated_signature')
         run.probe('field_flip_' + atk['field'])
     elif k == 'flip_final_sig':
         b = bytearray(items[0])
         bit = atk['bit'] % (len(b) * 8)
         b[bit // 8] ^= 1 << (bit % 8)
-        items[0] = bytes(b)
+        if atk.get('malleate') and len(items[0]) in (64, 65):
+            items[0] = malleate(items[0])       # (R, S + L) instead of a flipped bit
+            run.probe('malleated_signature')
+        else:
+            items[0] = bytes(b)
         run.probe('field_flip_final_sig')
     elif k == 'marker' and chainw:
         items[cert_pos(atk['link']) - 1] = bytes.fromhex(atk['val'])
